@@ -371,6 +371,12 @@ func (*blockReader).PeekLine
   ensures fresh(result0) || result0 == nil || (arrof(result0) == arrof(r.source) && cap(result0) == len(result0))
   modifies nothing
 
+// the character before the cursor: never indexes outside the source (C01)
+func (*blockReader).PrecendingCharacter
+  requires brInv(r)
+  modifies nothing
+  loop 0 inv i <= r.pos.Start - 1 && l == len(r.source)
+
 func (*blockReader).Value
   requires brBase(r) && seg.Start <= seg.Stop + 1
   requires r.segmentsLength > 0 && seg.Start >= segs(r)[0].Start
